@@ -309,3 +309,6 @@ B('C08.rrsig-times-swapped-both-sides', ['C08'], [
     (P + 'dnsrec/record.py', "        parser.parse_timestamp('signature_expiration', item_size=4)\n        parser.parse_timestamp('signature_inception', item_size=4)", "        parser.parse_timestamp('signature_inception', item_size=4)\n        parser.parse_timestamp('signature_expiration', item_size=4)"),
     (P + 'dnsrec/record.py', "        composer.compose_timestamp(self.signature_expiration, item_size=4)\n        composer.compose_timestamp(self.signature_inception, item_size=4)", "        composer.compose_timestamp(self.signature_inception, item_size=4)\n        composer.compose_timestamp(self.signature_expiration, item_size=4)")],
   mention=['signature_'])
+B('C03.ldap-indefinite-length-accepted', ['C03'], [(P + 'tls/ldap.py', "        if bytes(parsable[1:2]) == b'\\x80':\n", "        if bytes(parsable[1:2]) == b'\\x81':\n")], mention=['indefinite'])
+N('benign.ldap-indefinite-by-index', [(P + 'tls/ldap.py', "        if bytes(parsable[1:2]) == b'\\x80':\n", "        if len(parsable) > 1 and bytearray(parsable)[1] == 0x80:\n")])
+B('C02.index-guard-off-by-one', ['C02'], [(P + 'tls/ldap.py', "        if bytes(parsable[1:2]) == b'\\x80':\n", "        if len(parsable) > 0 and bytearray(parsable)[1] == 0x80:\n")], mention=['IndexError'])
